@@ -123,6 +123,9 @@ pub open spec fn cd_header_view() -> MV {
     MV::Comp(seq![("cbCompFirstRowSize"@, MV::Check(Box::new(MV::U16(0, true)))), ("cbCompMainBodySize"@, MV::U16(0, true)),
                   ("cbScanWidth"@, MV::U16(0, true)), ("cbUncompressedSize"@, MV::U16(0, true))])
 }
+/// TS_CD_HEADER (MS-RDPBCGR 2.2.9.1.1.3.1.2.3): cbCompFirstRowSize(0), cbCompMainBodySize(1), cbScanWidth(2), cbUncompressedSize(3);
+/// the compressed bitmap data that follows the header has cbCompMainBodySize bytes.  Looked up by field NAME (as Component's index does).
+pub open spec fn cd_main_body_size(header: MV) -> u16 { header->Comp_0[first_key(header->Comp_0, "cbCompMainBodySize"@)].1->U16_0 }
 pub open spec fn bitmap_data_view() -> MV {
     MV::Comp(seq![("destLeft"@, MV::U16(0, true)), ("destTop"@, MV::U16(0, true)), ("destRight"@, MV::U16(0, true)), ("destBottom"@, MV::U16(0, true)),
                   ("width"@, MV::U16(0, true)), ("height"@, MV::U16(0, true)), ("bitsPerPixel"@, MV::U16(0, true)),
@@ -185,7 +188,11 @@ builder("ts_confirm_active_pdu", "r.message", fuel=3,
         closures={1: CAPSET_DEFAULT, 2: size_closure("length", "sourceDescriptor"), 3: size_closure("length", "capabilitySets", 4)},
         extra=[(None, "type", "r.pdu_type is PdutypeConfirmactivepdu"),
                ("C04", "bytes", "ser(r.message.mv()) =~= confirm_active_bytes(o32(share_id, 0), %s, %s.len() as u16, ser_seq(%s))" % (OPT_SRC, OPT_CAPS, OPT_CAPS)),
-               ("C04", "size", "ser(r.message.mv()).len() == 14 + %s.len() + ser_seq(%s).len()" % (OPT_SRC, OPT_CAPS))])
+               ("C04", "size", "ser(r.message.mv()).len() == 14 + %s.len() + ser_seq(%s).len()" % (OPT_SRC, OPT_CAPS)),
+               # parsing path (PDU::from_control reads into ts_confirm_active_pdu(None, None, None)): the default array is EMPTY and its element factory is capability_set(None)
+               ("C06", "default-prototype", "capabilities_set is None ==> (r.message.fields()[7].1 matches MV::Arr(s, p) && s.len() == 0 && *p == capability::capability_set_view(1, Seq::empty()))"),
+               ("C04,C06", "given-array", "capabilities_set is Some ==> r.message.fields()[7].1 == capabilities_set->Some_0.mv()"),
+               ("C06", "default-source", "source is None ==> r.message.fields()[4].1 == MV::Bytes(Seq::empty())")])
 builder("ts_deactivate_all_pdu", "r.message", keys=True, closures={1: size_closure("length", "sourceDescriptor")},
         extra=[(None, "type", "r.pdu_type is PdutypeDeactivateallpdu")])
 SDH_T2 = "(if pdu_type_2 is Some { pdu_type_2->Some_0 as u8 } else { 0x32u8 })"
@@ -215,7 +222,10 @@ builder("ts_font_map_pdu", "r.message", extra=[(None, "type", "r.pdu_type is Pdu
 builder("ts_input_pdu_data", "r.message", props=("C04", "C11"), fuel=5,
         closures={1: dict(params="", ret="-> (c: Component)", spec="ensures c.mv() == input_event_view(0x8001, Seq::empty())")},
         extra=[(None, "type", "r.pdu_type is Pdutype2Input"),
-               ("C04,C11", "bytes", "events is Some && events->Some_0.mv() is Arr ==> ser(r.message.mv()) =~= le16(events->Some_0.mv()->Arr_0.len() as u16) + le16(0) + ser_seq(events->Some_0.mv()->Arr_0)")])
+               ("C04,C11", "bytes", "events is Some && events->Some_0.mv() is Arr ==> ser(r.message.mv()) =~= le16(events->Some_0.mv()->Arr_0.len() as u16) + le16(0) + ser_seq(events->Some_0.mv()->Arr_0)"),
+               # parsing path: the default array is EMPTY and its element factory is ts_input_event(None, None)
+               ("C06", "default-prototype", "events is None ==> (r.message.fields()[2].1 matches MV::Arr(s, p) && s.len() == 0 && *p == input_event_view(0x8001, Seq::empty()))"),
+               ("C04,C06", "given-array", "events is Some ==> r.message.fields()[2].1 == events->Some_0.mv()")])
 IE_TYPE = "(if message_type is Some { message_type->Some_0 as u16 } else { 0x8001u16 })"
 IE_DATA = "(if data is Some { data->Some_0@ } else { Seq::<u8>::empty() })"
 builder("ts_input_event", "c", ret="c", props=("C04", "C11"), fuel=5, keys=True,
@@ -228,17 +238,26 @@ builder("ts_keyboard_event", "r.message", props=("C04", "C11"), fuel=5,
         extra=[("C11", "type", "r.event_type is InputEventScancode"), ("C04,C11", "bytes", "ser(r.message.mv()) =~= le16(o16(flags, 0)) + le16(o16(key_code, 0)) + le16(0)")])
 # Verus crashes (mk_range) on arithmetic applied to a reference: `header >> 4` with header: &u8 is spelled with the explicit deref
 builder("ts_fp_update", "c", ret="c", props=("C06", "C10"), keys=True, body_sub=[(r"\(header >> 4\)", "(*header >> 4)")],
-        closures={1: dict(params="header: &u8", ret=MO, spec='ensures r.ov() == (if (*header >> 4) & 0x2 == 0 { OV::Skip("compressionFlags"@) } else { OV::None })'),
-                  2: size_closure("size", "updateData")},
+        # #1: as-implemented (differs from MS-RDPBCGR 2.2.9.1.2.1: compression is bits 6-7, the code tests bit 5 = fragmentation); #2 from the document: updateData has `size` bytes
+        closures={1: dict(params="header: &u8", ret=MO, props="C06,C10", cid="as-implemented (differs from MS-RDPBCGR 2.2.9.1.2.1: compression is bits 6-7)",
+                          spec='ensures r.ov() == (if (*header >> 4) & 0x2 == 0 { OV::Skip("compressionFlags"@) } else { OV::None })'),
+                  2: dict(size_closure("size", "updateData"), props="C10", cid="update-size")},
         extra=[("C06,C10", "view", "c.mv() == fp_update_view()")],
         post="proof { assert((0u8 >> 4) & 0x2 == 0) by(bit_vector); assert(c.fields() =~= fp_update_view()->Comp_0); }")
 builder("ts_cd_header", "c", ret="c", props=("C06", "C10"), keys=True, extra=[("C06,C10", "view", "c.mv() == cd_header_view()")],
         post="proof { assert(c.fields() =~= cd_header_view()->Comp_0); }")
+# closure contracts of ts_bitmap_data are written from MS-RDPBCGR 2.2.9.1.1.3.1.2.2 TS_BITMAP_DATA (not from the code):
+#  #1 flags: bitmapComprHdr is absent iff BITMAP_COMPRESSION (0x0001) is clear or NO_BITMAP_COMPRESSION_HDR (0x0400) is set
+#  #2 bitmapLength: size in bytes of bitmapDataStream (when the compression header is absent)
+#  #3 bitmapComprHdr (TS_CD_HEADER 2.2.9.1.1.3.1.2.3): bitmapDataStream has cbCompMainBodySize bytes -- field "cbCompMainBodySize", position 1 of the documented layout
+# (`props` / `cid` of a closure entry document the property the contract belongs to: a closure post-condition failure is a failure of the enclosing builder)
 builder("ts_bitmap_data", "c", ret="c", props=("C06", "C10"), keys=True,
-        closures={1: dict(params="flags: &U16", ret=MO, spec='ensures r.ov() == (if flags.val() & 0x0001 == 0 || flags.val() & 0x0400 != 0 { OV::Skip("bitmapComprHdr"@) } else { OV::None })'),
-                  2: size_closure("length", "bitmapDataStream"),
-                  3: dict(params="header: &Component", ret=MO, spec='requires same_shape(cd_header_view(), header.mv()) ensures r.ov() == OV::Size("bitmapDataStream"@, header.fields()[1].1->U16_0 as usize)')},
-        hints=[(r'MessageOption::Size\("bitmapDataStream"\.to_string\(\), cast!', 1, "proof { reveal_with_fuel(same_shape, 2); let f = header.fields(); let g = cd_header_view()->Comp_0; assert(g[1].0 == f[1].0 && g[0].0 == f[0].0 && same_shape(g[1].1, f[1].1)); assert(first_key(f, \"cbCompMainBodySize\"@) == 1); }", "at")],
+        closures={1: dict(params="flags: &U16", ret=MO, props="C10", cid="comprhdr-present-iff-compressed-with-header",
+                          spec='ensures r.ov() == (if flags.val() & 0x0001 == 0 || flags.val() & 0x0400 != 0 { OV::Skip("bitmapComprHdr"@) } else { OV::None })'),
+                  2: dict(size_closure("length", "bitmapDataStream"), props="C10", cid="data-size-is-bitmapLength"),
+                  3: dict(params="header: &Component", ret=MO, props="C10", cid="data-size-is-cbCompMainBodySize",
+                          spec='requires same_shape(cd_header_view(), header.mv()) ensures r.ov() == OV::Size("bitmapDataStream"@, cd_main_body_size(header.mv()) as usize), cd_main_body_size(header.mv()) == header.fields()[1].1->U16_0, header.fields()[1].0 == "cbCompMainBodySize"@')},
+        hints=[(r'MessageOption::Size\("bitmapDataStream"\.to_string\(\), cast!', 1, "proof { reveal_with_fuel(same_shape, 2); let f = header.fields(); let g = cd_header_view()->Comp_0; assert(g[1].0 == f[1].0 && g[0].0 == f[0].0 && g[2].0 == f[2].0 && g[3].0 == f[3].0 && same_shape(g[1].1, f[1].1) && same_shape(g[3].1, f[3].1)); assert(first_key(f, \"cbCompMainBodySize\"@) == 1); }", "at")],
         extra=[("C06,C10", "view", "c.mv() == bitmap_data_view()")],
         post="proof { assert(0u16 & 0x0001 == 0) by(bit_vector); assert(c.fields() =~= bitmap_data_view()->Comp_0); }")
 builder("ts_fp_update_bitmap", "r.message", props=("C06", "C10"),
